@@ -41,7 +41,7 @@ func (vm *varyMatcher) VaryHeadersMatch(entries ResponseRefs, reqHdr http.Header
 		bVary := strings.TrimSpace(b.Vary)
 
 		// Responses with Vary: "*" are least preferred
-		switch aIsStar, bIsStar := aVary == "*", bVary == "*"; {
+		switch aIsStar, bIsStar := varyHasWildcard(aVary), varyHasWildcard(bVary); {
 		case aIsStar && !bIsStar:
 			return 1 // b preferred
 		case bIsStar && !aIsStar:
@@ -70,8 +70,8 @@ func (vm *varyMatcher) VaryHeadersMatch(entries ResponseRefs, reqHdr http.Header
 }
 
 func (vm *varyMatcher) varyHeadersMatchOne(entry *ResponseRef, reqHeader http.Header) bool {
-	if entry.Vary == "*" {
-		return false // Vary: "*" never matches
+	if varyHasWildcard(entry.Vary) {
+		return false // Vary: "*" never matches, neither alone nor as a list member
 	}
 	for field, value := range entry.VaryResolved {
 		reqValues := reqHeader[field]
@@ -86,4 +86,16 @@ func (vm *varyMatcher) varyHeadersMatchOne(entry *ResponseRef, reqHeader http.He
 		}
 	}
 	return true
+}
+
+// varyHasWildcard reports whether "*" is a member of the Vary field value
+// (RFC 9110 §12.5.5: a list containing "*" signals that anything might have
+// played a role in selecting the response).
+func varyHasWildcard(vary string) bool {
+	for field := range TrimmedCSVSeq(vary) {
+		if field == "*" {
+			return true
+		}
+	}
+	return false
 }
